@@ -197,4 +197,33 @@ theorem replace_loses_await_answer :
     ∧ (good.reported = [(0, 1), (0, 3)] ∧ good.learned = [(0, 3), (0, 1)]
       ∧ ((good.wk 0).procs 0).map (·.result) = some (some (.ok [-1, 0, -1, 1, -2, -2]))) := by decide
 
+/-- main: `c1 = @{ !recv, fail }, c2 = @{ [2,0] me }, c3 = @{ !recv }, c4 = @{ !recv }, ! [c1, #recv],
+[0,0] c1, ! [c3, c4, 20]` -/
+def staleFailProg : Prog :=
+  [[.spawn 1 [], .spawn 2 [0], .spawn 3 [], .spawn 4 [], .select [.proc 1, .recv .any], .send 1 0 0,
+    .select [.proc 3, .proc 4, .timeout 20]],
+   [.select [.recv .any], .fail], [.send 1 2 0], [.select [.recv .any]], [.select [.recv .any]]]
+
+def staleFailCs : List Choice :=
+  let W0 := Choice.worker 0 100 9 [] []
+  let W1 := Choice.worker 1 100 9 [] []
+  let E := Choice.env [100, 100]
+  let E1 := Choice.env [0, 100]
+  [W0, E, W0, E, W0, E, W0, E, W0, W0, W0, E, W1, W0, E, W0, W0, W0, E, W1, E1, W0, E, W0,
+   E, W1, E1, W0, E, W0, .tick 30, W0, W0]
+
+/-- F17 (repaired by 755cedc).  With the earlier rule (`update_await_results` wakes the awaiter only
+if the answer carries no result at all) the initial answer of `! [c3, c4, 20]`, merged with the
+stale failure report of `c1`, wakes nobody: the select is never evaluated (`selStart = none`), its
+timeout never starts, and the system is idle — a lost wake-up.  With the current rule the same
+schedule evaluates the select, the timeout fires and the process finishes with `[0, [2,0], []]`. -/
+theorem stale_failure_suppresses_wakeup :
+    let bad := runWith Rules.wakeOnlyOnEmptyAnswer (Sys.init 2 staleFailProg 1) staleFailCs
+    let good := run (Sys.init 2 staleFailProg 1) staleFailCs
+    (0 ∈ (bad.wk 0).selecting ∧ ((bad.wk 0).procs 0).map (·.selStart) = some none
+      ∧ (∀ w, w < 2 → bad.cmdQ w = [] ∧ bad.evtQ w = [] ∧ (bad.wk w).queue = [])
+      ∧ (∀ w, w < 2 → (bad.wk w).hasTimeout bad.prog = false))
+    ∧ ((good.wk 0).procs 0).map (·.result) = some (some (.ok [-1, 0, -1, 2, 0, -2, -1, -2, -2])) := by
+  decide +kernel
+
 end C04
